@@ -47,6 +47,12 @@ impl SlotVersion {
 }
 
 impl ArchetypeVersion {
+    /// Verification hook: compiled only with `--cfg gecs_verif`, never in normal builds.
+    #[cfg(gecs_verif)]
+    pub(crate) fn __verif_new(version: NonZeroU32) -> Self {
+        Self { version }
+    }
+
     #[inline(always)]
     pub(crate) fn start() -> Self {
         Self {
